@@ -26,7 +26,7 @@ pub struct Case {
     /// in-memory .shp / .shx destinations already hold longer stale content (a reused buffer)
     pub prefill: bool,
     /// 0: as is; 1: palette shape a has no-data measures only (types with measures); 2 (disk): the file name has
-    /// several dots ("c08-<n>.v1.2024.shp")
+    /// several dots ("c08-<n>.v1.2024.shp"); 3: the pairs are written by one `write_shapes_and_records` call
     pub variant: u8,
 }
 
@@ -57,6 +57,9 @@ pub struct Obs {
     pub read: Result<Vec<(MRead, Option<i64>, Option<String>)>, String>,
     /// by path: companion files that are missing under their proper names / created under other names
     pub missing: Vec<String>,
+    /// Reader::read_as::<T, Record>() and iter_shapes_and_records_as::<T, Record>() over the same bytes
+    pub typed_read: Result<Vec<(MRead, Option<i64>, Option<String>)>, String>,
+    pub typed_iter: Result<Vec<(MRead, Option<i64>, Option<String>)>, String>,
 }
 
 pub fn observe(pal: &Palette, case: &Case) -> Obs {
@@ -143,7 +146,7 @@ pub fn observe(pal: &Palette, case: &Case) -> Obs {
             env.shp.0.borrow_mut().data = vec![0xEE; 5000];
             env.shx.0.borrow_mut().data = vec![0xEE; 3000];
         }
-        results = exec_complete(pal, &case.ops, &env);
+        results = if case.variant == 3 { exec_bulk(pal, &case.ops, &env) } else { exec_complete(pal, &case.ops, &env) };
         shp = env.shp.data();
         shx = env.shx.data();
         dbf = env.dbf.data();
@@ -167,7 +170,50 @@ pub fn observe(pal: &Palette, case: &Case) -> Obs {
     if let Ok(v) = &mut iter {
         v.truncate(cap + 1);
     }
-    Obs { results, shp, shx, dbf, iter, read, missing }
+    // the typed routes over the same bytes: read_as::<T, Record>() and iter_shapes_and_records_as
+    let open_mem = || -> Result<Reader<Dev, Dev>, String> {
+        let sr = ShapeReader::with_shx(Dev::quiet(shp.clone()), Dev::quiet(shx.clone())).map_err(|e| err_kind(&e))?;
+        let dr = shapefile::dbase::Reader::new(Dev::quiet(dbf.clone())).map_err(|e| format!("dbf: {}", e))?;
+        Ok(Reader::new(sr, dr))
+    };
+    let typed_read: Result<Vec<(MRead, Option<i64>, Option<String>)>, String> = crate::with_ty!(case.ty, T => open_mem().and_then(|mut r| {
+        r.read_as::<T, shapefile::dbase::Record>().map(|v| v.into_iter().map(|(s, row)| conv((shapefile::Shape::from(s), row))).collect()).map_err(|e| err_kind(&e))
+    }), unreachable!());
+    let typed_iter: Result<Vec<(MRead, Option<i64>, Option<String>)>, String> = crate::with_ty!(case.ty, T => open_mem().and_then(|mut r| {
+        let mut v = vec![];
+        for it in r.iter_shapes_and_records_as::<T, shapefile::dbase::Record>() {
+            match it {
+                Ok((s, row)) => v.push(conv((shapefile::Shape::from(s), row))),
+                Err(e) => return Err(err_kind(&e)),
+            }
+            if v.len() > cap {
+                break;
+            }
+        }
+        Ok(v)
+    }), unreachable!());
+    Obs { results, shp, shx, dbf, iter, read, missing, typed_read, typed_iter }
+}
+
+/// all-success histories through `Writer::write_shapes_and_records` (one call that consumes the writer): every
+/// operation gets the result of that call
+fn exec_bulk(pal: &Palette, ops: &[POp], env: &PEnv) -> Vec<CallRes> {
+    let w = shapefile::Writer::new(shapefile::ShapeWriter::with_shx(env.shp.clone(), env.shx.clone()), table::table_writer(env.dbf.clone()));
+    let rows: Vec<shapefile::dbase::Record> = (0..ops.len()).map(table::good_row).collect();
+    env.set_call(0);
+    let r = crate::with_ty!(pal.ty, T => {
+        let shapes: Vec<T> = ops.iter().map(|op| match op {
+            POp::Good(k) => <T as std::convert::TryFrom<shapefile::Shape>>::try_from(clone_shape(&pal.lib[*k as usize])).ok().expect("palette shape of the file type"),
+            _ => unreachable!("bulk histories hold accepted pairs only"),
+        }).collect();
+        catch(move || w.write_shapes_and_records(shapes.iter().zip(rows.iter())))
+    }, unreachable!());
+    let one = match r {
+        Ok(Ok(())) => CallRes::Ok,
+        Ok(Err(e)) => CallRes::Err(err_kind(&e)),
+        Err(p) => CallRes::Panic(p.sig()),
+    };
+    vec![one; ops.len()]
 }
 
 /// the palette with every measure of shape a replaced by the no-data value
@@ -199,6 +245,20 @@ pub fn judge(pal: &Palette, case: &Case, o: &Obs) -> Vec<(String, String)> {
     let route = if case.disk { "disk" } else { "mem" };
     if !o.missing.is_empty() {
         out.push((format!("{}:companion-files", route), format!("written by path with the file name of the .shp given: {}", o.missing.join("; "))));
+    }
+    // the typed routes return the pairs the generic read returns
+    for (name, typed) in [("read_as", &o.typed_read), ("iter_shapes_and_records_as", &o.typed_iter)] {
+        let same = match (&o.read, typed) {
+            (Ok(a), Ok(b)) => a.len() == b.len() && a.iter().zip(b).all(|(x, y)| super::c04::mread_eq(&x.0, &y.0) && x.1 == y.1 && x.2 == y.2),
+            (Err(_), Err(_)) => true,
+            _ => false,
+        };
+        if !same {
+            out.push((
+                format!("{}:typed-pairs-differ:{}", route, name),
+                format!("{}::<{}, Record>() returned {:?}, read() returned {:?} (row indexes shown)", name, case.ty.name(), typed.as_ref().map(|v| v.iter().map(|x| x.1).collect::<Vec<_>>()), o.read.as_ref().map(|v| v.iter().map(|x| x.1).collect::<Vec<_>>())),
+            ));
+        }
     }
     // per-call results
     let mismatch = format!("MismatchShapeType(requested={},actual={})", case.ty.code(), other_of(case.ty).code());
@@ -327,6 +387,53 @@ pub fn judge(pal: &Palette, case: &Case, o: &Obs) -> Vec<(String, String)> {
     out
 }
 
+/// n pairs written by path, the table description taken from the finished data set, the same pairs written
+/// again through `Writer::from_path_with_info`: the three files must be the same (date stamp masked).
+pub fn with_info_verdicts(pal: &Palette, n: usize) -> Vec<(String, String)> {
+    let dir = super::c01_c02::scratch_dir();
+    let tid: String = format!("{:?}", std::thread::current().id()).chars().filter(|c| c.is_ascii_digit()).collect();
+    let (p1, p2) = (dir.join(format!("c08i-{}-a.shp", tid)), dir.join(format!("c08i-{}-b.shp", tid)));
+    let r = catch(|| -> Result<Vec<(String, String)>, String> {
+        {
+            let mut w = shapefile::Writer::from_path(&p1, table::builder()).map_err(|e| err_kind(&e))?;
+            for i in 0..n {
+                write_pair(&mut w, &pal.lib[i % 2], &table::good_row(i)).map_err(|e| err_kind(&e))?;
+            }
+        }
+        let info = Reader::from_path(&p1).map_err(|e| err_kind(&e))?.into_table_info();
+        {
+            let mut w = shapefile::Writer::from_path_with_info(&p2, info).map_err(|e| err_kind(&e))?;
+            for i in 0..n {
+                write_pair(&mut w, &pal.lib[i % 2], &table::good_row(i)).map_err(|e| err_kind(&e))?;
+            }
+        }
+        let mut out = vec![];
+        for ext in ["shp", "shx", "dbf"] {
+            let a = std::fs::read(p1.with_extension(ext)).map_err(|e| format!("{}: {}", ext, e))?;
+            let b = std::fs::read(p2.with_extension(ext)).map_err(|e| format!("{}: {}", ext, e))?;
+            let (a, b) = if ext == "dbf" { (table::mask_date(&a), table::mask_date(&b)) } else { (a, b) };
+            if a != b {
+                out.push((format!("with-info:{}-differs", ext), format!(".{} written through from_path_with_info has {} bytes, the original {} (first difference {:?})", ext, b.len(), a.len(), a.iter().zip(&b).position(|(x, y)| x != y))));
+            }
+        }
+        let pairs = shapefile::read(&p2).map_err(|e| err_kind(&e))?;
+        if pairs.len() != n || pairs.iter().enumerate().any(|(i, (_, row))| table::row_idx(row) != Some(i as i64)) {
+            out.push(("with-info:pairs".to_string(), format!("{} pairs read back, rows {:?}", pairs.len(), pairs.iter().map(|(_, r)| table::row_idx(r)).collect::<Vec<_>>())));
+        }
+        Ok(out)
+    });
+    for p in [&p1, &p2] {
+        for ext in ["shp", "shx", "dbf"] {
+            let _ = std::fs::remove_file(p.with_extension(ext));
+        }
+    }
+    match r {
+        Ok(Ok(v)) => v,
+        Ok(Err(e)) => vec![("with-info:call-failed".to_string(), e)],
+        Err(p) => vec![(format!("with-info:{}", p.sig()), p.msg)],
+    }
+}
+
 fn enabled(h: &Hist) -> Vec<u8> {
     if h.len() == CFG {
         vec![0, 1]
@@ -392,6 +499,7 @@ pub fn check(tier: Tier) -> i32 {
         inits.push(vec![t, 2]);
         inits.push(vec![t, 3]);
         inits.push(vec![t, 4]);
+        inits.push(vec![t, 5]);
     }
     let (p2, ty2) = (pals.clone(), types.clone());
     let disk_depth = 3;
@@ -399,9 +507,18 @@ pub fn check(tier: Tier) -> i32 {
         inits,
         CFG,
         depth,
-        Arc::new(move |h| if h[1] >= 1 && h.len() - CFG >= disk_depth { vec![] } else { enabled(h) }),
+        Arc::new(move |h| {
+            if h[1] == 5 {
+                // one bulk call: accepted pairs only, to the full depth
+                vec![0, 1]
+            } else if h[1] >= 1 && h.len() - CFG >= disk_depth {
+                vec![]
+            } else {
+                enabled(h)
+            }
+        }),
         Arc::new(move |h, ctx| {
-            let case = Case { ty: ty2[h[0] as usize], disk: h[1] == 1 || h[1] == 4, ops: h[CFG..].iter().map(|b| POPS[*b as usize]).collect(), prefill: h[1] == 2, variant: match h[1] { 3 => 1, 4 => 2, _ => 0 } };
+            let case = Case { ty: ty2[h[0] as usize], disk: h[1] == 1 || h[1] == 4, ops: h[CFG..].iter().map(|b| POPS[*b as usize]).collect(), prefill: h[1] == 2, variant: match h[1] { 3 => 1, 4 => 2, 5 => 3, _ => 0 } };
             let pal = &p2[h[0] as usize];
             let mut hh = Fnv::new();
             hh.bytes(h);
@@ -450,6 +567,20 @@ pub fn check(tier: Tier) -> i32 {
             }
         }
     }
+    // a second data set created from the table description of the first (Reader::into_table_info,
+    // Writer::from_path_with_info): same pairs in, same three files out
+    for (ti, ty) in types.iter().enumerate() {
+        for n in 1..=3usize {
+            let cj = json!({"ty": ty.name(), "route": "from_path_with_info", "pairs": n});
+            let mut hh = Fnv::new();
+            hh.str(&cj.to_string());
+            ladder_ctx.case_done(hh.finish(), true, 11);
+            ladder_ctx.lib_calls += 2 * n as u64 + 4;
+            for (sig, d) in with_info_verdicts(&pals[ti], n) {
+                ladder_ctx.violation(sig, || cj.clone(), || d);
+            }
+        }
+    }
     super::c01_c02::cleanup_scratch();
     let st = selftest(&pals, &types);
     let mut ctxs = res.ctxs;
@@ -461,7 +592,7 @@ pub fn check(tier: Tier) -> i32 {
             tier,
             level: "model_checking",
             engine: "E1 stateright BFS over write-call histories on the real complete Writer (three instrumented devices / from_path), read back with the real complete Reader",
-            rule: "every history up to the depth bound over {OkA, OkB, BadType, RowMissingField, RowWrongType, RowWrongFirstField} (first call accepted), rows carry the position of their call; in memory to the full depth, through Writer::from_path + shapefile::read / Reader::from_path (over paths that already hold longer files; also with a file name that has several dots, the companion files being looked up under their proper names) and into in-memory buffers that already hold longer stale content, and with a shape whose measures are all no-data, each to depth 3; plus all-success histories of 255..2049 pairs (record-count ladder around powers of two, 1025 also by path); non-trivial = >= 2 calls",
+            rule: "every history up to the depth bound over {OkA, OkB, BadType, RowMissingField, RowWrongType, RowWrongFirstField} (first call accepted), rows carry the position of their call; in memory to the full depth, through Writer::from_path + shapefile::read / Reader::from_path (over paths that already hold longer files; also with a file name that has several dots, the companion files being looked up under their proper names) and into in-memory buffers that already hold longer stale content, and with a shape whose measures are all no-data, each to depth 3; all-success histories also through one write_shapes_and_records call; a second data set created through Reader::into_table_info + Writer::from_path_with_info gives the same three files; every file read back through read, iter_shapes_and_records and their typed forms read_as / iter_shapes_and_records_as; plus all-success histories of 255..2049 pairs (record-count ladder around powers of two, 1025 also by path); non-trivial = >= 2 calls",
             bounds: json!({"depth": depth, "disk_depth": disk_depth, "types": types.iter().map(|t| t.name()).collect::<Vec<_>>(), "alphabet": POPS.iter().map(|p| p.name()).collect::<Vec<_>>()}),
             exhaustive: true,
             assumptions: vec!["dbf tables without deleted rows; entry counts are read by the harness from the raw bytes (RefCodec scan, .shx parse, .dbf header bytes 4..8)".into()],
@@ -477,6 +608,16 @@ pub fn check(tier: Tier) -> i32 {
 }
 
 pub fn replay(v: &Value) -> Vec<(String, String)> {
+    if v.get("route").and_then(|x| x.as_str()) == Some("from_path_with_info") {
+        return match (v.get("ty").and_then(|x| x.as_str()).and_then(Ty::from_name), v.get("pairs").and_then(|x| x.as_u64())) {
+            (Some(ty), Some(n)) => {
+                let r = with_info_verdicts(&Palette::new(ty, Some(other_of(ty))), n as usize);
+                super::c01_c02::cleanup_scratch();
+                r
+            }
+            _ => vec![("bad-replay-file".into(), "cannot parse case".into())],
+        };
+    }
     match Case::from_json(v) {
         None => vec![("bad-replay-file".into(), "cannot parse case".into())],
         Some(case) => {
